@@ -82,7 +82,7 @@ def retry_run(sc, rs, tier, seed):
 DL_RUN = {"harness": "hdeadline", "driver": "dldrv", "corpus": "deadline", "fields": ["st", "post", "overdue", "rt", "wt", "bl"], "custom": retry_run,
           "quick": {"n": 40, "shards": 12}, "thorough": {"n": 96, "shards": 24}}
 
-STOP_RUN = {"harness": "hstop", "driver": "stopdrv", "corpus": "stopsim", "fields": ["stop", "opens", "closes", "qa", "qb", "online", "ha", "hb", "wa", "wb", "got", "ra", "rb"] + ["c%d" % i for i in range(64)],
+STOP_RUN = {"harness": "hstop", "driver": "stopdrv", "corpus": "stopsim", "fields": ["stop", "opens", "closes", "qa", "qb", "online", "ha", "hb", "wa", "wb", "got", "ra", "rb", "ret", "leak", "attempts"] + ["c%d" % i for i in range(64)],
             "custom": retry_run, "quick": {"n": 30, "shards": 12}, "thorough": {"n": 120, "shards": 24}}
 
 WSCB_RUN = {"harness": "hwscb", "driver": "wscbdrv", "corpus": "wscb", "fields": ["log", "run", "ret", "sent", "wire", "ql", "rets", "groups", "whole", "exec"],
@@ -124,7 +124,8 @@ PROPS = {
         "lean": ["NbioVerif.Properties.C14"], "drivers": ["wscbdrv"], "harness": ["hwscb"], "cs": cs_stop.C14_CS,
         "runs": [WSCB_RUN],
         "oracles": ["c14-"],
-        "rule": "cb case = schedule of upgrade / message arrival / close / callback release on the real poller-driven path; wq case "
+        "rule": "cb case = schedule of upgrade / message arrival / close / callback release (normally or with a panic of the message "
+                "handler, which nbio recovers) on the real poller-driven path, then everything owed must arrive; wq case "
                 "= schedule of WriteMessage calls (1-5 fragments, boundary lengths), drainer conn writes (ok/error) and "
                 "CloseAndClean with queue bound 0/2/3/5; wd case = 2-8 concurrent direct-mode callers with an optional failing "
                 "conn write; e2e case = upgrade path x send mode x (messages, writers, size); distinct by hash of the schedule "
@@ -188,7 +189,8 @@ PROPS = {
                 "concurrent closers) x stop|shutdown; distinct by hash of (config, op sequence, final state); non-trivial iff "
                 ">= 1 conn existed; lmux case = maxOnlineA x op sequence (dial, takeA/B with blocked consumers, dec, stop) on a "
                 "real ListenerMux; hsim case = nbhttp I/O mode x forced schedule (conn gated inside OnOpen, release, peer close, "
-                "conn accepted after the shutdown flag, stop|shutdown, wait)",
+                "conn accepted after the shutdown flag, request handler held while the conn is closed, stop|shutdown, wait); "
+                "ioblock case = Stop racing a busy read task of the default IO task pool (ET + AsyncReadInPoller), 8 attempts",
         "assumptions": ["the Async queue is a plain FIFO list in the model; that timer.Async is one (FIFO, exactly once, completes) is "
                         "C19's c19_async_fifo_exactly_once / c19_async_completes on ExecQ with Kind.async",
                         "HttpStop: closeAllConns is one atomic step (whole loop under engine.mux; its single Close calls touch "
